@@ -94,3 +94,31 @@ Theorem C06_content_type_absent : forall pmt,
   content_type pmt [] = pmt default_mime /\ content_type pmt [[]] = pmt default_mime.
 Proof. exact content_type_absent. Qed.
 Print Assumptions C06_content_type_absent.
+
+(* ---- several requests answered by one Context of an API with several operations (gate_history = the list of the
+   single gates, each over the consumes list of the operation the request addresses) ---- *)
+Theorem C06_history_stateless : forall default registered qs n q,
+  nth_error qs n = Some q -> nth_error (gate_history default registered qs) n = Some (gate_req default registered q).
+Proof. exact gate_history_stateless. Qed.
+Print Assumptions C06_history_stateless.
+
+Theorem C06_history_prefix_irrelevant : forall default registered pre pre' q,
+  nth_error (gate_history default registered (pre ++ [q])) (length pre) =
+  nth_error (gate_history default registered (pre' ++ [q])) (length pre').
+Proof. exact gate_history_prefix_irrelevant. Qed.
+Print Assumptions C06_history_prefix_irrelevant.
+
+(* every answer of a history, through either entry point, is the specification over the list of the operation addressed *)
+Theorem C06_history_is_expected : forall default registered qs,
+  lower default = default -> Forall greq_ok qs ->
+  map outcome (gate_history default registered qs) = map (expected_req default registered) qs.
+Proof. exact gate_history_expected. Qed.
+Print Assumptions C06_history_is_expected.
+
+(* two histories of the same requests that differ only in the entry points used are answered alike *)
+Theorem C06_history_entry_points_agree : forall default registered qs qs',
+  lower default = default -> Forall greq_ok qs -> Forall greq_ok qs' ->
+  map (fun q => (gq_declared q, gq_hasbody q, gq_parse q)) qs = map (fun q => (gq_declared q, gq_hasbody q, gq_parse q)) qs' ->
+  map outcome (gate_history default registered qs) = map outcome (gate_history default registered qs').
+Proof. exact gate_history_entry_points_agree. Qed.
+Print Assumptions C06_history_entry_points_agree.
